@@ -79,11 +79,15 @@ SPECS = [
             "   else piece(quoted(val(11), None, '\\xad', None, None))) + '</div>B')",
             "not ext_raised(0) or (exc_is_exception() and evals(11) == 1)",
             "not ext_raised(0) or handler_calls() == (1 if handler_configured() else 0)",
+            # C12: a handled failure is over -- the call-site records collected for it (by the macro's
+            # own handler, on the way out) are gone, so that they cannot turn up in the message of a
+            # later, unrelated error
+            "not ext_raised(0) or global_now('__error__') is UNBOUND()",
         ],
         raises={'*': {'ensures': [
             "(ext_raised(0) and not exc_is_exception()) or raised('e11')",
         ]}},
-        serves=['C13'], no_fresh=True,
+        serves=['C13', 'C12'], no_fresh=True,
     ),
     dict(
         id='S-OnError-in-translate',
